@@ -326,6 +326,23 @@ def r5(rr, repo):
                 else:
                     rr.violated('a client is dropped from the wait set without CLOSE or connection timeout', za.mod, e.node, witness=p.pc_text(e.pc_len)[-300:], key='del-other')
     rr.floor('kinds of client removal reached (close, timeout)', len(seen), 2, za.mod, za.S_poll)
+    # "now" is the moment the request arrived: the clock is read after the wait for a request returned, not before it. A reading taken before a long
+    # wait stamps the consumer that just asked as long silent, and the next pass drops it from the wait set although it is alive (the publisher then
+    # runs free of that consumer)
+    m = 0
+    for p in za.paths('poll'):
+        polls = [i for i, e in enumerate(p.events) if e.kind == 'call' and e.term.endswith('.poll')]
+        uses = [i for i, e in enumerate(p.events) if (e.kind == 'call' and e.term.endswith('Client') and 'ZMQSender' in e.term) or (e.kind == 'bind' and e.term == 't_min')]
+        clocks = [i for i, e in enumerate(p.events) if e.kind == 'call' and e.term in ('time_ns', 'time.time_ns', 'time', 'time.time', 'monotonic', 'time.monotonic')]
+        if not uses or not polls:
+            continue
+        m += 1
+        first_use = uses[0]
+        last_poll = max(i for i in polls if i < first_use) if any(i < first_use for i in polls) else None
+        ok = last_poll is not None and any(last_poll < c < first_use for c in clocks)
+        rr.ob('the time that stamps a request (and decides who timed out) is read after the wait for that request returned', ok, za.mod, p.events[first_use].node,
+              witness=f'poll at event {last_poll}, clock reads at {clocks}, first use at {first_use}', key='clock-after-wait')
+    rr.floor('paths of poll_recv that stamp a request', m, 1, za.mod, za.S_poll)
     # ... and the converse: a client whose last message is older than the connection timeout is removed on EVERY path (no extra
     # condition such as "unless it is a required output": the restarted consumer comes back under a new connection id and the
     # dead entry would block the publisher for ever)
